@@ -1042,13 +1042,33 @@ class LaunchRun(object):
             # DataDirectory belongs to a process that has not ended, whatever happens to the launch under test
             sim.probe('earlier-launch-still-running')
             before = set(os.listdir(self.root))
-            sim.reactor.spawn_hook = lambda proto, executable, args, env, path: (proto.makeConnection(_InertProcess()), proto.transport)[1]
+            def inert_spawn(proto, executable, args, env, path):
+                self.decoy_proto = proto
+                proto.makeConnection(_InertProcess())
+                return proto.transport
+            sim.reactor.spawn_hook = inert_spawn
             d0 = txtorcon.launch(sim.reactor, timeout=10 ** 7, tor_binary='/sim/tor', socks_port=None)
             d0.addErrback(lambda f: None)
             new = sorted(set(os.listdir(self.root)) - before)
             if len(new) != 1:
                 raise HarnessError('decoy launch made %r' % (new,))
             self.decoy_dir = os.path.join(self.root, new[0])
+            if self.ch.chance(1, 3, 'decoyfails'):
+                # ... or whose Tor died before it got anywhere: that attempt is over (failed, directory removed) and the
+                # launch under test is a fresh attempt in a process that has seen a failure
+                sim.probe('earlier-launch-failed')
+                outcome = []
+                d0.addBoth(outcome.append)      # (the errback above turned a failure into None)
+                p0 = self.decoy_proto
+                reason = Failure(error.ProcessTerminated(exitCode=1, signal=None, status=256))
+                p0.processExited(reason)
+                p0.processEnded(reason)
+                if os.path.isdir(self.decoy_dir):
+                    self.fail('C19.tempdir-exists-after-process-ended',
+                              'the temporary DataDirectory of an earlier launch whose Tor exited with status 1 still exists')
+                if not outcome:
+                    self.fail('C19.launch-never-completed', 'an earlier launch whose Tor exited with status 1 before bootstrapping is still pending')
+                self.decoy_dir = None
         sim.reactor.spawn_hook = self.spawn
         sim.reactor.connect_policy = self.connect_policy
         sim.add_source(self.workload_actions)
